@@ -31,6 +31,15 @@ def run(chk):
     batcher.send_rules(chk, P, "C08")
     batcher.wait_closures(chk, P, "C08")
     batcher.worker_panics(chk, P, "C08")
+    if not getattr(chk, "_overlay", None):
+        common.results_inspected_rule(
+            chk, P, "C08.R7:results-inspected", "no failure inside the channel machinery is silently dropped (a dropped outcome is how a worker "
+            "goes on as if a step had happened)",
+            lambda b: b.crate == "emit_batcher" and "::tests::" not in b.key,
+            {(r"Watchers::notify_on_(flush|take)$", "catch_unwind"): "a panicking watcher callback is contained and must not stop the other watchers or the worker",
+             (r"^emit_batcher::tokio::(flush|send)(::\{closure#\d+\})*$", "send"):
+                 "a oneshot notification whose receiver is gone: the waiter timed out and no longer listens"},
+            25)
     if chk.tier == "thorough":
         try:
             P3 = mir.Program("K3")
